@@ -184,8 +184,9 @@ IO_B = {"V_U8": ("FlatVec<u8,u8>", 6, 3, 1200), "U_E2": ("unsized enum{A,B(Bool)
         "X_U8": ("FlexVec<u8,u8>", 5, 2, 5400), "V_U8L32": ("FlatVec<u8,u32> (align 4)", 8, 4, 3600)}
 IO_A = {"V_U8": ("FlatVec<u8,u8>", 5, 2, 3, 1800), "U_E2": ("unsized enum{A,B(Bool),C(FlatVec<u8,u8>)}", 5, 2, 3, 1800),
         "SS2": ("sized struct{u16,u8}", 6, 2, 3, 2400), "U_S1": ("unsized struct{u8,u16,FlatVec<u8,u8>}", 8, 2, 2, 3600),
-        "V_U8_q": ("FlatVec<u8,u8>", 5, 2, 2, 1500), "SS2_q": ("sized struct{u16,u8}", 6, 2, 2, 1500),
-        "U_E2_q": ("unsized enum{A,B(Bool),C(FlatVec<u8,u8>)}", 5, 2, 2, 1500)}
+        "V_U8_q": ("FlatVec<u8,u8>", 4, 2, 1, 1500), "SS2_q": ("sized struct{u16,u8}", 6, 2, 1, 1500),
+        "U_E2_q": ("unsized enum{A,B(Bool),C(FlatVec<u8,u8>)}", 4, 2, 1, 1500),
+        "V_U8_m": ("FlatVec<u8,u8>", 5, 2, 2, 3000), "U_E2_m": ("unsized enum{A,B(Bool),C(FlatVec<u8,u8>)}", 5, 2, 2, 3000)}
 IO_AQUICK = ["V_U8_q", "SS2_q"]
 IO_QUICK = ["V_U8", "SS2"]
 IO_ASSUME = ["the receiver's pre-state is constructed through the `verif` hooks of flatty-io (window, contents); the window invariant (start multiple of ALIGN, start <= end <= capacity, empty window == 0..0) is assumed for the pre-state and re-asserted on the post-state",
